@@ -14,6 +14,14 @@ CHECKS = {
          "As C03; excluded as the property says: valid_count with a plain replacement value under propagation.", T + "; tagged exact-rational float model", "5 C04"),
  "C13": ("C03's harness on dimensions with 2 or 3 axes (unequal extra extents, two multi-axis dimensions at once): result shape = extras ++ categories (++ columns) and the block at every extra-axis position equals the direct computation over that position's 1-D slices, for both cube types and all four shared aggregates.",
          "As C03; extra extents up to (2,3) quick / (3,2),(1,4),(2,2)+(2,) thorough.", T, "5 C13"),
+ "C05": ("Relational check on the real shift_common + ccube + ffuncs: for every dimension and every new common value in 0..E (E never occurs), the aggregate of the original cube, of the cube with that dimension re-expressed, and of the re-normalised copy are equal cell by cell for all symbolic data (missing flags exactly, values as rationals); the original is also compared with the direct oracle.",
+         "As C03 (exact-rational model, N<=3, D<=2); cube shape explicit with one spare category.", T, "5 C05"),
+ "C16": ("Bounded symbolic conflict analysis of the real pooled task code: per-task cell-level read/write footprints on every buffer that exists before pool.map, and attribute writes on the shared cube/aggregate objects, recorded while the tasks run under the shim for all data on each path; conflict-free tasks commute, so every interleaving gives the serial result. The pooled result is also compared with the direct oracle. A recorded conflict is replayed on the real build by a deterministic interleaving scheduler (real threads gated by sys.settrace at line and opcode level) and reported only if some interleaving changes the output.",
+         "The commutation meta-argument is trusted; C-level thread interleavings inside a NumPy call and the real pool's worker management are outside the claim; scaffolds (3,), (2,2) (quick) plus (2,3) (thorough), N=2.", "symbolic footprint (conflict) analysis over the shim + z3 for the data-dependent parts; deterministic scheduler replay", "5 C16"),
+ "C17": ("Symbolic execution of cube construction, aggregate construction and calculate for both cube types with every caller-owned buffer snapshotted: after each step every cell must hold the same term (hidden values under a False validity are arbitrary, so a missing copy shows up), aggregates computed together in any order equal each computed alone, and re-using aggregate objects (same cube, another cube) gives equal arrays.",
+         "As C03; N=3, D<=2, K<=2; the non-mutating index methods are covered by C06's operand-unchanged assertions.", T, "5 C17"),
+ "C20": ("The interrupt callback raises at a symbolic invocation index (serial) or at a symbolic subset of invocations (pooled, pool stub): on every path calculate must propagate the injected exception iff some invocation raises, the callback must be consulted exactly i+1 times (serial) / once per sub-cube (pooled), and a second evaluation on the same cube and aggregate objects must equal the direct oracle for all data.",
+         "Pool = stub that calls every task and re-raises the first exception (the documented ThreadPool.map contract); K<=3 sub-cubes quick, <=6 thorough.", T + "; fault index as a solver variable", "5 C20"),
  "C08": ("Bounded symbolic execution of the lowered set_operations.pyx: every path for every length tuple within the cap, element magnitudes are solver variables over all of uint32; each path's result is checked against a set-algebra specification written in SMT; z3 decides every VC.",
          "Line-level .pyx->Python lowering and the kernel NumPy stub are trusted (cross-validated per path against a scratch build); operands longer than the cap (quick 3 / thorough 5) are outside the claim.", "symbolic execution of the lowered Cython source + z3 (QF_LIA) per path", "5 C08"),
  "C09": ("Same exploration as C08 with every memoryview access in a boundscheck(False) function carrying the obligation 0 <= i < shape[0]; a feasible path with an out-of-range access is a violation, replayed on a scratch build compiled with boundscheck(True).",
